@@ -248,6 +248,20 @@ Section C03.
     inversion E; subst. eapply rejected_not_accepted; eassumption.
   Qed.
 
+  (* the same guard for generator functions: the generator object is not even created *)
+  Theorem args_guard_gen : forall f c b a v,
+    sig_ok f = true -> twin_binding f c = Ok b ->
+    In (Some a, v) (supplied_of f c b) -> rejected a v ->
+    snd (run_gen pc check consumes f c) = [] /\ exists e, fst (run_gen pc check consumes f c) = Raise e.
+  Proof.
+    intros f c b a v Hsig Hb Hin Hrej. rewrite (run_gen_is_ref pc check consumes good). unfold run_gen_ref.
+    destruct (instance_of f c) as [inst|e]; [|simpl; split; eauto].
+    destruct (assert_uses_kwargs pc f c) as [u|e]; [|simpl; split; eauto].
+    destruct (args_phase pc check consumes f c inst astate0) as [st|e] eqn:Ea; [|simpl; split; eauto].
+    exfalso. destruct (supplied_accepted f c inst st b Hsig Hb Ea _ _ Hin) as [a' [E Hacc]].
+    inversion E; subst. eapply rejected_not_accepted; eassumption.
+  Qed.
+
   (* which exception: nothing but PedanticTypeCheckException can come out of the argument phase when the
      class probe of `type_vars` does not fail and the checker itself raises nothing else *)
   Section Exact.
